@@ -301,7 +301,7 @@ theorem shape_Conn_internalConnect : Facts.shape_Conn_internalConnect = some "bc
 theorem shape_Conn_dialProxy : Facts.shape_Conn_dialProxy = some "d7fcd714c9fb39d2" := by decide
 
 /-- [C06,C07,C18] `Conn.postConnect` is the body the model transcribes -/
-theorem shape_Conn_postConnect : Facts.shape_Conn_postConnect = some "9f8d669890c827d5" := by decide
+theorem shape_Conn_postConnect : Facts.shape_Conn_postConnect = some "d98c22de238a1327" := by decide
 
 /-- [C06,C07,C18] `Conn.ping` is the body the model transcribes -/
 theorem shape_Conn_ping : Facts.shape_Conn_ping = some "fb69317c11dce15c" := by decide
@@ -560,7 +560,7 @@ theorem closure_C01 : Facts.closure_C01 = some "743cd3821b5244aa" := by decide
 theorem closure_C02 : Facts.closure_C02 = some "743cd3821b5244aa" := by decide
 
 /-- [C03] everything the roots of C03 can reach is as pinned -/
-theorem closure_C03 : Facts.closure_C03 = some "92cd2dfbac222d90" := by decide
+theorem closure_C03 : Facts.closure_C03 = some "a64e3d6a56c25e99" := by decide
 
 /-- [C04] everything the roots of C04 can reach is as pinned -/
 theorem closure_C04 : Facts.closure_C04 = some "743cd3821b5244aa" := by decide
@@ -569,16 +569,16 @@ theorem closure_C04 : Facts.closure_C04 = some "743cd3821b5244aa" := by decide
 theorem closure_C05 : Facts.closure_C05 = some "743cd3821b5244aa" := by decide
 
 /-- [C06] everything the roots of C06 can reach is as pinned -/
-theorem closure_C06 : Facts.closure_C06 = some "92cd2dfbac222d90" := by decide
+theorem closure_C06 : Facts.closure_C06 = some "a64e3d6a56c25e99" := by decide
 
 /-- [C07] everything the roots of C07 can reach is as pinned -/
-theorem closure_C07 : Facts.closure_C07 = some "92cd2dfbac222d90" := by decide
+theorem closure_C07 : Facts.closure_C07 = some "a64e3d6a56c25e99" := by decide
 
 /-- [C08] everything the roots of C08 can reach is as pinned -/
 theorem closure_C08 : Facts.closure_C08 = some "61e2152ce0aee2a7" := by decide
 
 /-- [C09] everything the roots of C09 can reach is as pinned -/
-theorem closure_C09 : Facts.closure_C09 = some "64eaeb88122e12ff" := by decide
+theorem closure_C09 : Facts.closure_C09 = some "49d436d0d9d4f912" := by decide
 
 /-- [C10] everything the roots of C10 can reach is as pinned -/
 theorem closure_C10 : Facts.closure_C10 = some "a0c6f16ed96b164b" := by decide
@@ -599,18 +599,18 @@ theorem closure_C14 : Facts.closure_C14 = some "68bd1bedf06165e6" := by decide
 theorem closure_C15 : Facts.closure_C15 = some "eae4d61ba5f0516e" := by decide
 
 /-- [C16] everything the roots of C16 can reach is as pinned -/
-theorem closure_C16 : Facts.closure_C16 = some "92cd2dfbac222d90" := by decide
+theorem closure_C16 : Facts.closure_C16 = some "a64e3d6a56c25e99" := by decide
 
 /-- [C17] everything the roots of C17 can reach is as pinned -/
 theorem closure_C17 : Facts.closure_C17 = some "d21fde94adf5bbb3" := by decide
 
 /-- [C18] everything the roots of C18 can reach is as pinned -/
-theorem closure_C18 : Facts.closure_C18 = some "2ea491d2259804f7" := by decide
+theorem closure_C18 : Facts.closure_C18 = some "23bf8e7a73919824" := by decide
 
 /-- [C19] everything the roots of C19 can reach is as pinned -/
 theorem closure_C19 : Facts.closure_C19 = some "81c369138ea214b4" := by decide
 
 /-- [C20] everything the roots of C20 can reach is as pinned -/
-theorem closure_C20 : Facts.closure_C20 = some "92cd2dfbac222d90" := by decide
+theorem closure_C20 : Facts.closure_C20 = some "a64e3d6a56c25e99" := by decide
 
 end FactsCheck
